@@ -93,6 +93,9 @@ NEEDS = {
     "schema/clients-zero": {},
     "schema/iterations-zero": {},
     "schema/time-period-fraction": {},
+    # track-schema.json is a draft-04 schema: 4.0 is a number, not an integer (what `{{ clients / 2 }}` renders to)
+    "schema/clients-integral-float": {},
+    "schema/iterations-integral-float": {},
     "schema/empty-schedule": {},
     "schema/empty-parallel-tasks": {"parallel": True},
     "schema/parallel-without-tasks": {"parallel": True},
@@ -387,6 +390,13 @@ def apply_violation(doc, user_params, v, model):
     elif kind == "schema/iterations-zero":
         _strip_timing(leaf)
         leaf["iterations"] = 0
+    elif kind == "schema/clients-integral-float":
+        (par if par is not None and a % 2 else leaf)["clients"] = float(1 + a % 4)
+    elif kind == "schema/iterations-integral-float":
+        _strip_timing(leaf)
+        leaf[["iterations", "warmup-iterations", "time-period", "warmup-time-period"][a % 4]] = float(2 + b % 5)
+        if a % 4 == 3:
+            leaf["time-period"] = 10
     elif kind == "schema/time-period-fraction":
         _strip_timing(leaf)
         leaf["time-period"] = 1.5 + a % 3
